@@ -7,7 +7,7 @@ from spec import render_enum, spellings, is_ci
 
 
 def run_e2(run, programs, specs, extra_src, user_fns, err_fn_of, known, replay_harness="h_e2_replay", derive="EnumString", vcs_of=None, vec_of=None,
-           claim=None):
+           claim=None, validation=None):
     import driver
     t0 = time.time()
     cdir = os.path.join(run.cdir, "e2s")
@@ -21,6 +21,13 @@ def run_e2(run, programs, specs, extra_src, user_fns, err_fn_of, known, replay_h
         sp2.std_derives = ["Debug"]
         sp2.derives = [derive]
         src.append(render_enum(sp2))
+    if validation:
+        src.append(validation[0])
+        for sp, _, _ in validation[1]:
+            sp2 = copy.deepcopy(sp)
+            sp2.std_derives = ["Debug"]
+            sp2.derives = [derive]
+            src.append(render_enum(sp2))
     with open(os.path.join(cdir, "src", "lib.rs"), "w") as f:
         f.write("\n".join(src) + "\n")
     env = dict(fw.ENV)
@@ -67,6 +74,19 @@ def run_e2(run, programs, specs, extra_src, user_fns, err_fn_of, known, replay_h
                 _counterexample(run, prog, sp, vc, s, known, replay_harness, vec_of)
             else:
                 run.machinery.append("E2-str inconclusive: %s/%s (%s)" % (sp.name, vc["name"], detail))
+    if validation:
+        # translator validation on the repository's own (input, variant) test pairs (strum_tests/tests/from_str.rs)
+        vsrc, vspecs = validation
+        res["translator_validation"] = []
+        for sp, pairs, ufns in vspecs:
+            try:
+                for inp, exp, v in ms.validate_pairs(fns, sp, ufns, pairs):
+                    res["queries"] += 1
+                    res["translator_validation"].append({"enum": sp.name, "input": inp, "expected": str(exp), "verdict": v})
+                    if v != "unsat":
+                        run.machinery.append("E2-str translator validation failed: the encoding of %s does not map %r to %s as the repository's test asserts (%s)" % (sp.name, inp, exp, v))
+            except m.Unsupported as e:
+                res["unsupported"].append("validation %s: %s" % (sp.name, e))
     res["wall_s"] = round(time.time() - t0, 1)
     if res["unsupported"]:
         run.say("NOTE: E2 (string skeleton) could not encode: %s  (not decided by E2; E1 decides these within its bound)" % "; ".join(res["unsupported"][:4]))
